@@ -36,6 +36,7 @@ func init() {
 		"vfNote":        func(fr *frame, a []value) value { return nil },
 		"vfSpecSub": func(fr *frame, a []value) value { return vfSpecArith(fr, "-", a) },
 		"vfSpecMul": func(fr *frame, a []value) value { return vfSpecArith(fr, "*", a) },
+		"vfOpaque":  vfOpaque,
 		"vfMapOrderMark": func(fr *frame, a []value) value {
 			fr.i.needPath("vfMapOrderMark")
 			fr.i.ps.mapMark = true
@@ -439,4 +440,30 @@ func vfSpecArith(fr *frame, op string, a []value) value {
 		t.ri = ri
 	}
 	return sym{t, types.Float64}
+}
+
+// vfOpaque(tag, a..f): an uninterpreted real-valued function of six exact-domain
+// arguments (Ackermannised: equal arguments give equal results). Used by
+// harness-level stubs that abstract a numeric kernel so that the logic around it
+// can be decided for every kernel.
+func vfOpaque(fr *frame, a []value) value {
+	i := fr.i
+	i.needPath("vfOpaque")
+	st := i.st
+	var args []*Term
+	for _, v := range a[1:] {
+		switch v := v.(type) {
+		case float64:
+			args = append(args, st.RealOfFloat(v))
+		case sym:
+			if v.t.S.K != KReal {
+				panic(unsupported{"vfOpaque on a value outside the exact domain"})
+			}
+			args = append(args, v.t)
+		default:
+			panic(unsupported{fmt.Sprintf("vfOpaque argument %T", v)})
+		}
+	}
+	i.noteInexact("opaque:" + a[0].(string))
+	return sym{st.InexactVar("op_"+a[0].(string), args...), types.Float64}
 }
